@@ -230,12 +230,12 @@ func ruleCurFai(c *Ctx, r *Rep, tier string) {
 	}
 	var off *ssa.Phi
 	for _, ins := range scan.Block().Instrs {
-		if p, ok := ins.(*ssa.Phi); ok && p.Comment == "offset" {
+		if p, ok := ins.(*ssa.Phi); ok && isInt64(p.Type()) {
 			off = p
 		}
 	}
 	if off == nil {
-		unresolved("fai.NewIndex: no loop-carried variable 'offset' at the Scan loop head")
+		unresolved("fai.NewIndex: no loop-carried int64 (the running file offset) at the Scan loop head")
 	}
 	rawLen := func(v ssa.Value) bool {
 		return symKey(v) == "len("+symKey(scan.Call.Args[0])+".Bytes())"
@@ -266,10 +266,10 @@ func ruleCurFai(c *Ctx, r *Rep, tier string) {
 	raw := "len(" + symKey(scan.Call.Args[0]) + ".Bytes())"
 	trimmed := "len(TrimSpace(" + symKey(scan.Call.Args[0]) + ".Bytes()))"
 	want := map[string][]string{
-		"Start":        {pAtom("phi:offset").add(pAtom(raw), 1).canon()},
+		"Start":        {pAtom(symKey(off)).add(pAtom(raw), 1).canon()},
 		"BytesPerLine": {pAtom(raw).canon()},
 		"BasesPerLine": {pAtom(trimmed).canon()},
-		"Length":       {pAtom(trimmed).add(pAtom("rec.Length"), 1).canon()},
+		"Length":       {pAtom(trimmed).add(pAtom("local:Record.Length"), 1).canon()},
 	}
 	seen := map[string]int{}
 	allInstrs(fn, func(ins ssa.Instruction) {
@@ -282,7 +282,7 @@ func ruleCurFai(c *Ctx, r *Rep, tier string) {
 			return
 		}
 		al, ok := fa.X.(*ssa.Alloc)
-		if !ok || al.Comment != "rec" {
+		if !ok || !isRecordVar(al) {
 			return
 		}
 		f := fieldVarOfAddr(fa).Name()
@@ -309,7 +309,7 @@ func ruleCurFai(c *Ctx, r *Rep, tier string) {
 		w.Effect = func(ins ssa.Instruction) (string, bool) {
 			if st, ok := ins.(*ssa.Store); ok {
 				if fa, ok := st.Addr.(*ssa.FieldAddr); ok {
-					if al, ok := fa.X.(*ssa.Alloc); ok && al.Comment == "rec" {
+					if al, ok := fa.X.(*ssa.Alloc); ok && isRecordVar(al) {
 						switch fieldVarOfAddr(fa).Name() {
 						case "Length":
 							return "length", true
@@ -320,7 +320,7 @@ func ruleCurFai(c *Ctx, r *Rep, tier string) {
 					}
 				}
 				// rec = Record{} : a whole-struct reset
-				if al, ok := st.Addr.(*ssa.Alloc); ok && al.Comment == "rec" {
+				if al, ok := st.Addr.(*ssa.Alloc); ok && isRecordVar(al) {
 					return "reset", true
 				}
 			}
@@ -362,11 +362,11 @@ func ruleGeomAccept(c *Ctx, r *Rep, tier string) {
 		if st, ok := ins.(*ssa.Store); ok {
 			// the record variable r is filled field by field or from a composite
 			// literal, depending on the go/ssa version: the last such store counts
-			if al, ok := st.Addr.(*ssa.Alloc); ok && al.Comment == "r" {
+			if al, ok := st.Addr.(*ssa.Alloc); ok && isRecordVar(al) {
 				start = st
 			}
 			if fa, ok := st.Addr.(*ssa.FieldAddr); ok {
-				if al, ok := fa.X.(*ssa.Alloc); ok && al.Comment == "r" {
+				if al, ok := fa.X.(*ssa.Alloc); ok && isRecordVar(al) {
 					start = st
 				}
 			}
@@ -394,7 +394,7 @@ outer:
 		for _, S := range vals {
 			for _, B := range vals {
 				for _, Y := range vals {
-					env := map[string]int64{"r.Length": L, "r.Start": S, "r.BasesPerLine": B, "r.BytesPerLine": Y}
+					env := map[string]int64{"local:Record.Length": L, "local:Record.Start": S, "local:Record.BasesPerLine": B, "local:Record.BytesPerLine": Y}
 					sr := symExecAt(fn, locOf(start), func(i ssa.Instruction) bool { return i == ssa.Instruction(accept) }, env)
 					n++
 					if sr.Undec != "" {
@@ -471,7 +471,7 @@ outer:
 			default:
 				return
 			}
-			if !strings.Contains(symKey(bo), "r.") {
+			if !strings.Contains(symKey(bo), "local:Record.") {
 				return
 			}
 			var ks []int64
@@ -528,7 +528,7 @@ func ruleSeqLineAccept(c *Ctx, r *Rep, tier string) {
 	n := 0
 	try := func(B, Y, lb, rawLen int64, what string) {
 		n++
-		env := map[string]int64{raw: rawLen, trimmed: lb, "rec.BytesPerLine": Y, "rec.BasesPerLine": B, "phi:wantDescLine": 0}
+		env := map[string]int64{raw: rawLen, trimmed: lb, "local:Record.BytesPerLine": Y, "local:Record.BasesPerLine": B, "phi:bool": 0}
 		sr := symExecAt(fn, Loc{seqStart, -1}, func(i ssa.Instruction) bool { return i == ssa.Instruction(scan) }, env)
 		switch {
 		case sr.Undec != "" && sr.Undec != "panic":
@@ -574,7 +574,7 @@ func returnsOutsideGuard(fn *ssa.Function) (out []*ssa.Return, guard *ssa.BasicB
 		if iff == nil {
 			continue
 		}
-		if bo, ok := iff.Cond.(*ssa.BinOp); ok && (bo.Op == token.LEQ || bo.Op == token.LSS || bo.Op == token.EQL) && symKey(bo.X) == "r.BasesPerLine" {
+		if bo, ok := iff.Cond.(*ssa.BinOp); ok && (bo.Op == token.LEQ || bo.Op == token.LSS || bo.Op == token.EQL) && symKey(bo.X) == "$0.BasesPerLine" {
 			if k, ok := constInt(bo.Y); ok && k <= 1 {
 				guard = b
 			}
@@ -595,7 +595,7 @@ func returnsOutsideGuard(fn *ssa.Function) (out []*ssa.Return, guard *ssa.BasicB
 
 func rulePosFormula(c *Ctx, r *Rep, tier string) {
 	rule := "POS-FORMULA"
-	B, Y, S, L, p := pAtom("r.BasesPerLine"), pAtom("r.BytesPerLine"), pAtom("r.Start"), pAtom("r.Length"), pAtom("p")
+	B, Y, S, L, p := pAtom("$0.BasesPerLine"), pAtom("$0.BytesPerLine"), pAtom("$0.Start"), pAtom("$0.Length"), pAtom("$1")
 	// position
 	{
 		fn := c.Func("fai", "(Record).position")
@@ -686,7 +686,7 @@ func rulePosFormula(c *Ctx, r *Rep, tier string) {
 		why := ""
 		for _, pv := range []int64{-1, 0, 1, 2, 3} {
 			for _, lv := range []int64{0, 1, 2} {
-				sr := symExec(fn, map[string]int64{"p": pv, "r.Length": lv, "r.position(p)": 77})
+				sr := symExec(fn, map[string]int64{"$1": pv, "$0.Length": lv, "$0.position($1)": 77})
 				inRange := pv >= 0 && pv < lv
 				switch {
 				case sr.Undec == "panic":
@@ -715,7 +715,7 @@ func isMinFunc(fn *ssa.Function) bool {
 		return false
 	}
 	for _, ab := range [][2]int64{{0, 1}, {1, 0}, {1, 1}} {
-		sr := symExec(fn, map[string]int64{fn.Params[0].Name(): ab[0], fn.Params[1].Name(): ab[1]})
+		sr := symExec(fn, map[string]int64{paramKey(fn.Params[0]): ab[0], paramKey(fn.Params[1]): ab[1]})
 		m := ab[0]
 		if ab[1] < m {
 			m = ab[1]
@@ -802,9 +802,9 @@ func ruleReadBound(c *Ctx, r *Rep, tier string) {
 		} else {
 			ub := upperBounds(sl.High, 0)
 			need := map[string]string{
-				pAtom("s.Record.endOfLineOffset(s.cur)").canon():                                         "the bases left on the cursor's line (or the terminator bytes are returned as bases)",
+				pAtom("$0.Record.endOfLineOffset($0.cur)").canon():                                         "the bases left on the cursor's line (or the terminator bytes are returned as bases)",
 				pAtom("len(" + symKey(sl.X) + ")").canon():                                               "the caller's buffer",
-				pAtom("s.Record.position(s.end)").add(pAtom("s.Record.position(s.cur)"), -1).canon(): "the bytes up to the end of the requested range",
+				pAtom("$0.Record.position($0.end)").add(pAtom("$0.Record.position($0.cur)"), -1).canon(): "the bytes up to the end of the requested range",
 			}
 			for k, what := range need {
 				if !ub[k] {
@@ -822,7 +822,7 @@ func ruleReadBound(c *Ctx, r *Rep, tier string) {
 	r.Instance(rule, 1)
 	{
 		why := ""
-		if symKey(call.Call.Args[1]) != "s.Record.position(s.cur)" {
+		if symKey(call.Call.Args[1]) != "$0.Record.position($0.cur)" {
 			why = "ReadAt offset is " + symKey(call.Call.Args[1]) + ", not position(s.cur)"
 		}
 		if di := defInstr(call.Call.Args[1]); di == nil || !instrDominates(di, call) {
@@ -861,7 +861,7 @@ func ruleReadBound(c *Ctx, r *Rep, tier string) {
 			nStores++
 			st := ins.(*ssa.Store)
 			got := polyOf(st.Val, nil).canon()
-			if n0 == nil || got != pAtom(symKey(n0)).add(pAtom("s.cur"), 1).canon() {
+			if n0 == nil || got != pAtom(symKey(n0)).add(pAtom("$0.cur"), 1).canon() {
 				why += " s.cur is assigned " + got + ";"
 			}
 			if ins.Block() != call.Block() || !instrDominates(call, ins) {
@@ -878,10 +878,11 @@ func ruleReadBound(c *Ctx, r *Rep, tier string) {
 		var bPhi, nPhi *ssa.Phi
 		allInstrs(fn, func(ins ssa.Instruction) {
 			if p, ok := ins.(*ssa.Phi); ok {
-				switch p.Comment {
-				case "b":
+				// by role: the buffer parameter as it shrinks, and the running count (an int)
+				switch symKey(p) {
+				case "phi:$1":
 					bPhi = p
-				case "n":
+				case "phi:int":
 					nPhi = p
 				}
 			}
@@ -902,7 +903,7 @@ func ruleReadBound(c *Ctx, r *Rep, tier string) {
 				if !call.Block().Dominates(nPhi.Block().Preds[i]) {
 					continue
 				}
-				if polyOf(e, nil).canon() != pAtom(symKey(n0)).add(pAtom("phi:n"), 1).canon() {
+				if polyOf(e, nil).canon() != pAtom(symKey(n0)).add(pAtom("phi:int"), 1).canon() {
 					why += " the running total is not advanced by the count read;"
 				}
 			}
@@ -915,11 +916,11 @@ func ruleReadBound(c *Ctx, r *Rep, tier string) {
 				cnt := polyOf(retValue(ret, 0), nil).canon()
 				switch {
 				case isEOFLoad(retValue(ret, 1)):
-					if cnt != "1·phi:n" {
+					if cnt != "1·phi:int" {
 						why += " the count returned with io.EOF is " + cnt + ";"
 					}
 				case instrDominates(call, ret):
-					if cnt != pAtom(symKey(n0)).add(pAtom("phi:n"), 1).canon() {
+					if cnt != pAtom(symKey(n0)).add(pAtom("phi:int"), 1).canon() {
 						why += " the count returned after a ReadAt is " + cnt + " (the bytes of the last ReadAt must be included);"
 					}
 				default:
@@ -953,9 +954,9 @@ func ruleReadBound(c *Ctx, r *Rep, tier string) {
 				x, y := symKey(bo.X), symKey(bo.Y)
 				exit := -1
 				switch {
-				case bo.Op == token.LSS && x == "s.cur" && y == "s.end", bo.Op == token.GTR && x == "s.end" && y == "s.cur":
+				case bo.Op == token.LSS && x == "$0.cur" && y == "$0.end", bo.Op == token.GTR && x == "$0.end" && y == "$0.cur":
 					exit = 1
-				case bo.Op == token.GEQ && x == "s.cur" && y == "s.end", bo.Op == token.LEQ && x == "s.end" && y == "s.cur":
+				case bo.Op == token.GEQ && x == "$0.cur" && y == "$0.end", bo.Op == token.LEQ && x == "$0.end" && y == "$0.cur":
 					exit = 0
 				}
 				if exit >= 0 && dominatedByEdge(fn, b, exit, ret.Block()) {
@@ -984,7 +985,7 @@ outer:
 		for _, e := range vals {
 			for _, l := range []int64{0, 1, 2} {
 				for _, found := range []int64{0, 1} {
-					env := map[string]int64{"start": s, "end": e, "rec.Length": l, "f.Index[name]#1": found}
+					env := map[string]int64{"$2": s, "$3": e, "$0.Index[$1]#0.Length": l, "$0.Index[$1]#1": found}
 					sr := symExec(fn, env)
 					n++
 					if sr.Undec != "" {
@@ -1001,7 +1002,7 @@ outer:
 					}
 					if okRet && want {
 						eff := strings.Join(sr.Effects, "; ")
-						for _, need := range []string{"complit.cur = start", "complit.start = start", "complit.end = end", "complit.Record = f.Index[name]#0", "complit.r = f.r"} {
+						for _, need := range []string{"local:complit.cur = $2", "local:complit.start = $2", "local:complit.end = $3", "local:complit.Record = $0.Index[$1]#0", "local:complit.r = $0.r"} {
 							if !strings.Contains(eff, "store "+need) {
 								why = "the Seq handle is not built with " + need + " (effects: " + eff + ")"
 								break outer
@@ -1018,7 +1019,7 @@ outer:
 	r.Instance(rule, 1)
 	why = ""
 	for _, found := range []int64{0, 1} {
-		sr := symExec(fn, map[string]int64{"f.Index[name]#1": found})
+		sr := symExec(fn, map[string]int64{"$0.Index[$1]#1": found})
 		if sr.Undec != "" {
 			why = "depends on " + sr.Undec
 			break
@@ -1029,12 +1030,12 @@ outer:
 		}
 		if okRet {
 			eff := strings.Join(sr.Effects, "; ")
-			for _, need := range []string{"complit.end = rec.Length", "complit.Record = f.Index[name]#0", "complit.r = f.r"} {
+			for _, need := range []string{"local:complit.end = $0.Index[$1]#0.Length", "local:complit.Record = $0.Index[$1]#0", "local:complit.r = $0.r"} {
 				if !strings.Contains(eff, "store "+need) {
 					why = "the Seq handle is not built with " + need + " (effects: " + eff + ")"
 				}
 			}
-			for _, not := range []string{"complit.cur", "complit.start"} {
+			for _, not := range []string{"local:complit.cur", "local:complit.start"} {
 				if strings.Contains(eff, "store "+not) {
 					why = "Seq sets " + not
 				}
@@ -1058,4 +1059,15 @@ func init() {
 		Explanation: "Reading a range is: translate base index to file offset (position), read at most to the end of the line/range/buffer, advance by what was read. The rules fix each of these by construction: the two layout formulas are compared, in polynomial normal form, with the .fai layout definition; the count handed to ReadAt has the three required upper bounds on every path (through verified min functions and phis); the cursor arithmetic is the canonical one; NewIndex's offset accounting is exact on every way round its loop and each Record field is fed from the right one of raw/trimmed length; the text form maps the same fields to the same columns in both directions and the reader's acceptance test is evaluated over every ordering of the numbers it compares.",
 		NotDecided:  "that position∘endOfLineOffset walk exactly the bases for every geometry (arithmetic over all values: the formulas are matched against the definition, not proved to compose), behaviour on files that are not well formed (ragged lines), ReaderAt implementations returning short reads without error.",
 	})
+}
+
+func isInt64(t types.Type) bool {
+	b, ok := t.Underlying().(*types.Basic)
+	return ok && b.Kind() == types.Int64
+}
+
+// isRecordVar: a local variable of type fai.Record (whatever it is called).
+func isRecordVar(al *ssa.Alloc) bool {
+	n, ok := al.Type().(*types.Pointer).Elem().(*types.Named)
+	return ok && n.Obj().Name() == "Record" && allocKey(al) == "local:Record"
 }
